@@ -8,6 +8,7 @@ package fsnotify
 import (
 	"io/fs"
 	"os"
+	"time"
 
 	"golang.org/x/sys/unix"
 )
@@ -268,4 +269,35 @@ func verifNewInotifyN(inst, evCap, errCap int) *inotify {
 		watches:     newWatches(),
 		doneResp:    make(chan struct{}),
 	}
+}
+
+// The inotify backend does not consult the file system today; should a change
+// make it do so, the answer is adversarial: the name may or may not exist at
+// that instant, whatever the kernel watches say (names and inodes are
+// independent: hard links, open descriptors, races with other processes).
+type verifAnyFI struct {
+	name string
+	dir  bool
+}
+
+func (f verifAnyFI) Name() string       { return f.name }
+func (f verifAnyFI) Size() int64        { return 0 }
+func (f verifAnyFI) ModTime() time.Time { return time.Time{} }
+func (f verifAnyFI) IsDir() bool        { return f.dir }
+func (f verifAnyFI) Sys() interface{}   { return nil }
+func (f verifAnyFI) Mode() fs.FileMode {
+	if f.dir {
+		return fs.ModeDir | 0o755
+	}
+	return 0o644
+}
+
+func verifStatAny(name string) (os.FileInfo, error) {
+	switch verifChoose("stat", 3) {
+	case 0:
+		return nil, unix.ENOENT
+	case 1:
+		return verifAnyFI{name: name, dir: true}, nil
+	}
+	return verifAnyFI{name: name}, nil
 }
